@@ -47,6 +47,7 @@ pub fn run(tier: &str) -> i32 {
     let mut all: BTreeMap<String, (String, u64, String)> = BTreeMap::new();
     let mut histories = 0u64;
     let mut per = Vec::new();
+    let mut matrix = Vec::new();
     let mut classes: BTreeMap<String, u64> = BTreeMap::new();
     for (ft, name) in [(FatType::Fat12, "fat12-root512"), (FatType::Fat32, "fat32")] {
         let ip = dir.join(format!("c19-{name}.img"));
@@ -68,6 +69,20 @@ pub fn run(tier: &str) -> i32 {
             }
             traces.push(read_trace(&tp));
             let _ = std::fs::remove_file(&tp);
+            // match-relation matrix: every (stored name, looked-up name) pair against the fold this build documents
+            match crate::c17::run_driver(v, &["c19m", ip.to_str().unwrap()]) {
+                Ok(o) => {
+                    histories += o.evals;
+                    matrix.push(json!({"volume": name, "build": v, "pairs": o.evals}));
+                    for (sig, n, msg) in o.viols {
+                        all.entry(format!("{sig}/build-{v}")).or_insert((format!("{name}: {msg}"), 0, name.into())).1 += n;
+                    }
+                }
+                Err(e) => {
+                    eprintln!("MACHINERY ERROR: {e}");
+                    return 2;
+                }
+            }
         }
         let _ = std::fs::remove_file(&ip);
         let (a, b, c) = (&traces[0], &traces[1], &traces[2]);
@@ -153,7 +168,8 @@ pub fn run(tier: &str) -> i32 {
         "histories_per_build": histories,
         "history_classes": classes,
         "per_volume": per,
-        "explanation": "every history of the stated depth over an alphabet of long names (1..255 units, ASCII and non-ASCII with case partners) executed on the real crate in three feature builds; per history a hash of all results, the listing after every step and the final image; states = histories per build (no de-duplication), transitions = executions over the three builds",
+        "match_relation_matrix": matrix,
+        "explanation": "every history of the stated depth over an alphabet of long names (1..255 units, ASCII and non-ASCII with case partners) executed on the real crate in three feature builds; plus, per build, the match relation of every (stored name, looked-up name) pair over ~65 names and their upper/lower-cased forms against the fold that build documents (full Unicode upper-casing with `unicode`, ASCII only without); per history a hash of all results, the listing after every step and the final image; states = histories per build (no de-duplication), transitions = executions over the three builds",
         "technique": "exhaustive enumeration of operation histories on three feature builds of the real crate, traces compared pairwise",
     });
     rep.assumptions = vec!["no_std builds without `std` are not covered (the driver needs std); the std feature only adds std::io adapters".into()];
